@@ -142,10 +142,18 @@ func (c *AppenderRefs) sortByLevel() {
 		return iCode < jCode
 	})
 
-	// Adjust MaxLevel to match the next appender's MinLevel if needed
-	for i := len(c.AppenderRefs) - 1; i >= 1; i-- {
-		if c.AppenderRefs[i-1].Level.MaxLevel == MaxLevel {
-			c.AppenderRefs[i-1].Level.MaxLevel = c.AppenderRefs[i].Level.MinLevel
+	// Adjust MaxLevel to match the next higher MinLevel if needed.
+	// References sharing the same MinLevel all end at the same bound.
+	for i := len(c.AppenderRefs) - 2; i >= 0; i-- {
+		r := c.AppenderRefs[i]
+		if r.Level.MaxLevel != MaxLevel {
+			continue
+		}
+		for _, next := range c.AppenderRefs[i+1:] {
+			if next.Level.MinLevel.code > r.Level.MinLevel.code {
+				r.Level.MaxLevel = next.Level.MinLevel
+				break
+			}
 		}
 	}
 }
